@@ -3,7 +3,8 @@
    Model: Model/Placement.v (pools with per-worker normal / high-priority / low-priority queues,
    the hint -> queue computation of create_thread / schedule_thread / schedule_thread_last incl.
    select_active_pu, stealing flag, yield / boost-yield / suspend / resume / yield_to, external
-   and in-task submitters).  All theorems hold for every pool configuration [cfg], every
+   and in-task submitters; last_worker_thread_num_ with its stores (scheduling loop at the start of
+   every phase, do_yield) and its reads (do_resume, set_active_state) as separate atomic steps).  All theorems hold for every pool configuration [cfg], every
    assignment of OS threads to workers [roles], every schedule and every oracle (= every
    program, every interleaving, every queue discipline). *)
 From Coq Require Import List ZArith Lia.
@@ -51,7 +52,11 @@ Print Assumptions C10_runs_on_own_pool.
    priority queues or as many high-priority queues as workers, the task is not low priority on
    a priority scheduler, and no thread names the task in this_thread::yield_to.  Then every
    phase (initial queue, re-queue after yield / boost-yield, wake-up after suspension, "still
-   active" re-schedule) is entered by worker  size_t(hint) mod W  of the pool. *)
+   active" re-schedule) is entered by worker  size_t(hint) mod W  of the pool.  This includes the
+   wake-up of a task whose FIRST phase ends in a suspension and whose waker (do_resume, or the
+   "set state for active thread" helper) read the last worker while the task was still running:
+   since the repair (the scheduling loop records the worker at the start of every phase) that read
+   cannot return "none" any more (before it, this interleaving moved the task: see C10_first_phase_wake_example). *)
 Theorem C10_static_hint_pinned : forall cfg roles sched a p pr h t0 u ph p' w t,
   let g := run_g cfg roles sched in
   static_ok (cfg p) -> (pPrio (cfg p) = false \/ pr <> PLow) ->
@@ -131,16 +136,21 @@ Definition ex_cfg : nat -> pool_cfg := fun p =>
 Definition ex_roles : nat -> role := fun t =>
   match t with 0 => RWorker 0 0 | 1 => RWorker 0 1 | 2 => RWorker 1 0 | 3 => RWorker 1 1 | 4 => RWorker 1 2
              | _ => RExt end.
+(* [nx]: the second atomic step of a two-step operation (the oracle is not consulted): after a pop
+   that entered a task = the scheduling loop stores the last worker and invokes the coroutine; after
+   AYield / ASuspend = do_yield has stored the last worker, now the task is switched out; after
+   AResume = the last worker of the target has been read, now set_thread_state runs *)
+Definition nx : oracle := OAct AEnd.
 Definition ex_sched : list (nat * oracle) :=
   [ (10, OAct (ASpawn 1 PNormal (HThread 5)));
-    (4, OPop SrcOwnN 0); (4, OAct AYield);
+    (4, OPop SrcOwnN 0); (4, nx); (4, OAct AYield); (4, nx);
     (2, OPop SrcOwnN 0); (3, OPop (SrcStealN 2) 0);           (* other workers of the static pool get nothing *)
-    (4, OPop SrcOwnN 0); (4, OAct ASuspend);
-    (11, OAct (AResume 0));
+    (4, OPop SrcOwnN 0); (4, nx); (4, OAct ASuspend); (4, nx);
+    (11, OAct (AResume 0)); (11, nx);
     (0, OPop (SrcStealN 2) 0);                                 (* a worker of pool 0 cannot reach pool 1's queues *)
-    (4, OPop SrcOwnN 0); (4, OAct (ACall 7));
+    (4, OPop SrcOwnN 0); (4, nx); (4, OAct (ACall 7));
     (4, OAct (ASpawn 0 PNormal HNone)); (4, OAct AEnd);
-    (1, OPop (SrcStealN 0) 0); (1, OAct (ACall 8)); (1, OAct AEnd) ].
+    (1, OPop (SrcStealN 0) 0); (1, nx); (1, OAct (ACall 8)); (1, OAct AEnd) ].
 
 Example C10_example :
   let g := run_g ex_cfg ex_roles ex_sched in
@@ -150,6 +160,42 @@ Example C10_example :
   In (ESubmit 0 1 PNormal (HThread 5) 10) (glog g) /\ hint_num (HThread 5) = Some 5%Z /\
   Z.to_nat (5 mod Z.of_nat (pW (ex_cfg 1))) = 2.
 Proof. vm_compute. repeat split; try discriminate; try lia; intuition. Qed.
+
+(* the interleaving that moved a task before the repair (a hinted task of a static pool suspends at the
+   end of its FIRST phase while the retry helper of an earlier wake-up holds the hint it read during that
+   phase): task 0 is hinted to worker 1 of a static pool with two workers (OS threads 0, 1); thread 10 (the
+   unlocking side of a contended mutex, do_resume) finds it active and spawns the helper (task 1, queue 0);
+   the helper reads the last worker of task 0 while task 0 is still running, task 0 suspends, thread 11
+   advances the round-robin counter, the helper's retry re-queues task 0 with the hint it read.  The read
+   now returns worker 1 (EWake 0 (Some 1)), so phase 2 is entered on worker 1 again; with the initial value
+   "none" it was queue  2 mod 2 = 0. *)
+Definition fp_cfg : nat -> pool_cfg := fun _ =>
+  {| pW := 2; pH := 2; pPrio := false; pSteal := false; pElastic := false; pAvail := fun _ => true |}.
+Definition fp_roles : nat -> role := fun t => if Nat.ltb t 2 then RWorker 0 t else RExt.
+Definition fp_sched : list (nat * oracle) :=
+  [ (10, OAct (ASpawn 0 PNormal (HThread 1)));
+    (1, OPop SrcOwnN 0); (1, nx);                (* first phase on worker 1: pending -> active; store last worker, invoke *)
+    (10, OAct (AResume 0)); (10, nx);            (* do_resume: reads the last worker; target active -> helper task 1 *)
+    (0, OPop SrcOwnN 0); (0, nx);                (* worker 0 runs the helper (set_active_state) *)
+    (0, OAct (AResume 0));                       (* the helper reads the last worker of task 0 for its hint *)
+    (1, OAct ASuspend); (1, nx);                 (* the first phase of task 0 ends in a suspension *)
+    (11, OAct (ASpawn 0 PNormal HNone));         (* unrelated unhinted submission: curr_queue_ = 2 *)
+    (0, nx);                                     (* helper: set_thread_state(pending, hint) finds it suspended *)
+    (0, OAct AEnd);
+    (0, OPop SrcOwnN 0);                         (* nothing for worker 0 *)
+    (1, OPop SrcOwnN 1) ].                       (* worker 1 enters task 0 again (queue 1: task 2, task 0) *)
+Example C10_first_phase_wake_example :
+  let g := run_g fp_cfg fp_roles fp_sched in
+  static_ok (fp_cfg 0) /\
+  rev (enters (glog g)) = [EEnter 0 1 0 1 1; EEnter 1 1 0 0 0; EEnter 0 2 0 1 1] /\
+  In (EWake 0 (Some 1) 10) (glog g) /\ In (EWake 0 (Some 1) 0) (glog g) /\
+  (forall l t, In (EWake 0 l t) (glog g) -> l = Some 1) /\
+  In (EEnq 0 (QN 0 1) 0) (glog g).
+Proof.
+  vm_compute. split; [repeat split; try discriminate; try lia; intuition|]. split; [reflexivity|].
+  split; [intuition|]. split; [intuition|]. split; [|intuition].
+  intros l t H. repeat (destruct H as [H|H]; [try discriminate H; try (inversion H; reflexivity)|]). contradiction.
+Qed.
 
 (* ================================================================== C10 <-> C11: bulk placement
    Model/BulkPlacement.v: bulk_receiver::set_value / do_work_task / do_work_local of
@@ -270,9 +316,9 @@ Print Assumptions C10_bulk_queue_test_is_C11.
 Definition exb_bp : bulk_par := {| bp_pool := 1; bp_prio := PNormal; bp_hint := HNone; bp_n := 3 |}.
 Definition exb_sched : list (nat * boracle) :=
   [ (10, BO (OAct (ASpawn 1 PNormal (HThread 1))));
-    (3, BO (OPop SrcOwnN 0)); (3, BSetValue); (3, BF 1);            (* f before the loop is over: refused *)
+    (3, BO (OPop SrcOwnN 0)); (3, BO nx); (3, BSetValue); (3, BF 1);  (* f before the loop is over: refused *)
     (3, BLoop); (3, BLoop); (3, BLoop);
-    (2, BO (OPop SrcOwnN 0)); (4, BO (OPop SrcOwnN 0));
+    (2, BO (OPop SrcOwnN 0)); (2, BO nx); (4, BO (OPop SrcOwnN 0)); (4, BO nx);
     (4, BF 2); (3, BF 1); (2, BF 0); (10, BF 0);                    (* external thread: refused *)
     (2, BO (OAct AEnd)); (3, BO (OAct AEnd)); (4, BO (OAct AEnd)) ].
 Example C10_bulk_example :
@@ -295,7 +341,7 @@ Proof. vm_compute. repeat split; try discriminate; try lia; intuition. Qed.
    sender with a wrong get_completion_scheduler would do it. *)
 Definition exf_sched : list (nat * boracle) :=
   [ (10, BO (OAct (ASpawn 0 PNormal (HThread 1))));
-    (1, BO (OPop SrcOwnN 0)); (1, BSetValue); (1, BLoop); (1, BLoop); (1, BLoop); (1, BF 1) ].
+    (1, BO (OPop SrcOwnN 0)); (1, BO nx); (1, BSetValue); (1, BLoop); (1, BLoop); (1, BLoop); (1, BF 1) ].
 Example C10_bulk_foreign_predecessor_example :
   let b := bk_b ex_cfg exb_bp ex_roles exf_sched in
   bk_sv b = Some (0, 1, 1) /\ bk_calls b = [ {| fc_i := 1; fc_k := 1; fc_task := 0; fc_thr := 1 |} ] /\
